@@ -267,6 +267,17 @@ class CfgGen:
                     o['dynamic-macro-replay-delay-behaviour'] = rng.choice(['constant', 'recorded'])
                 if rng.random() < 0.05:
                     o['movemouse-smooth-diagonals'] = 'yes'
+                # numeric options at the ends of their u16 range (arithmetic on them must not overflow)
+                if rng.random() < 0.15:
+                    o['dynamic-macro-max-presses'] = rng.choice(['0', '1', '3', '32767', '32768', '65535'])
+                if rng.random() < 0.05:
+                    o['sequence-timeout'] = rng.choice(['1', '2'])      # (a large value only stretches the run: the drains are bounded)
+                if rng.random() < 0.05:
+                    o['rapid-event-delay'] = rng.choice(['0', '2'])
+                if rng.random() < 0.05:
+                    o['sequence-always-on'] = 'yes'
+                if rng.random() < 0.05:
+                    o['sequence-backtrack-modcancel'] = rng.choice(['yes', 'no'])
         lines.append('(defcfg %s)' % ' '.join('%s %s' % kv for kv in o.items()))
         lines.append('(defsrc %s)' % ' '.join(self.src))
         if 'vkeyact' in self.kinds and rng.random() < 0.7:
